@@ -334,7 +334,7 @@ def _run(ctx):
     # very wide sibling lists (rendering must not depend on how many siblings there are)
     if ctx.shard == 0:
         ids = lg.Ids()
-        for n_kids, parent_ws in ((600, True), (1100, False), (513, True)):
+        for n_kids, parent_ws in ((600, True), (1100, False), (513, True), (2100, True), (1700, False)):
             kids = []
             for i in range(n_kids):
                 kids.append(lg.leaf("text", ids) if i % 3 else gen.TAG("b", lg.leaf("text", ids), ws=False, via_fn=False))
